@@ -98,10 +98,20 @@ def A_strategy(ctx, server):
                     ce = d.expr_call(tt, x)
                     for n_ in flow.find(ce, lambda n_: n_[0] == "field" and n_[1][0] == "field" and n_[1][2] == "acs_per_strategy"):
                         fields.add(n_[2])
+                # the arm may only select the field (`Strategy::Ground => &self.ground` in an accessor that was inlined) and the is_some() follows the match
+                for s_ in cor.blocks[x]["stmts"]:
+                    if s_["k"] == "assign" and s_["rv"]["k"] in ("ref", "use"):
+                        pl = s_["rv"]["pl"] if s_["rv"]["k"] == "ref" else (s_["rv"]["o"].get("pl") if s_["rv"]["o"]["k"] in ("copy", "move") else None)
+                        names_ = [pe.get("name") for pe in (pl or {}).get("p", []) if pe["k"] == "field"]
+                        base_e = d.expr_rvalue(s_["rv"]) if pl else None
+                        if names_ and base_e is not None:
+                            for n_ in flow.find(base_e, lambda n_: n_[0] == "field" and n_[1][0] == "field" and n_[1][2] == "acs_per_strategy"):
+                                fields.add(n_[2])
             if fields and k < len(variants):
                 tab1[variants[k]] = fields
+    some_calls = [1 for bb, t, ci in cor.calls() if flow.last(ir.callee_path(ci) or "") == "is_some"]
     for vn, (cls, f, _) in STRATEGY_TABLE.items():
-        ctx.ob(rule, "has_been_solved[%s]" % vn, tab1.get(vn) == {f}, where=cor.where(), expected="acs_per_strategy.%s.is_some()" % f, found=sorted(tab1.get(vn, [])))
+        ctx.ob(rule, "has_been_solved[%s]" % vn, tab1.get(vn) == {f} and bool(some_calls), where=cor.where(), expected="acs_per_strategy.%s.is_some()" % f, found=sorted(tab1.get(vn, [])))
     # ---- (2) library call in the blocking closure
     blocking = [n for n in nested if not n.is_coroutine and any(flow.last(ir.callee_path(ci) or "") in LIB_SEM and "adf_bdd::adf" in (ir.callee_path(ci) or "") for _, _, ci in n.calls())]
     if len(blocking) != 1:
